@@ -113,7 +113,7 @@ func (c *CommandStep) interpolate(tf stringTransformer) error {
 	switch tf.(type) {
 	case envInterpolator:
 		// Env interpolation applies to nearly everything:
-		// key, depends_on, env (keys and values), matrix
+		// key, depends_on, env (keys and values), matrix, cache
 		if err := interpolateString(tf, &c.Key); err != nil {
 			return fmt.Errorf("interpolating key: %w", err)
 		}
@@ -122,6 +122,9 @@ func (c *CommandStep) interpolate(tf stringTransformer) error {
 		}
 		if err := c.Matrix.interpolate(tf); err != nil {
 			return fmt.Errorf("interpolating matrix: %w", err)
+		}
+		if err := c.Cache.interpolate(tf); err != nil {
+			return fmt.Errorf("interpolating cache: %w", err)
 		}
 
 	case matrixInterpolator:
